@@ -9,6 +9,49 @@ mod scene;
 use engine::*;
 use std::path::PathBuf;
 
+/// Global allocator that keeps, per thread, the number of live heap bytes allocated by that thread
+/// (C10 uses it: calls that draw nothing must not make a reused target grow).
+pub struct Counting;
+
+thread_local! {
+    pub static LIVE_BYTES: std::cell::Cell<isize> = const { std::cell::Cell::new(0) };
+}
+
+unsafe impl std::alloc::GlobalAlloc for Counting {
+    unsafe fn alloc(&self, l: std::alloc::Layout) -> *mut u8 {
+        let p = std::alloc::System.alloc(l);
+        if !p.is_null() {
+            let _ = LIVE_BYTES.try_with(|c| c.set(c.get() + l.size() as isize));
+        }
+        p
+    }
+    unsafe fn dealloc(&self, p: *mut u8, l: std::alloc::Layout) {
+        std::alloc::System.dealloc(p, l);
+        let _ = LIVE_BYTES.try_with(|c| c.set(c.get() - l.size() as isize));
+    }
+    unsafe fn alloc_zeroed(&self, l: std::alloc::Layout) -> *mut u8 {
+        let p = std::alloc::System.alloc_zeroed(l);
+        if !p.is_null() {
+            let _ = LIVE_BYTES.try_with(|c| c.set(c.get() + l.size() as isize));
+        }
+        p
+    }
+    unsafe fn realloc(&self, p: *mut u8, l: std::alloc::Layout, new_size: usize) -> *mut u8 {
+        let q = std::alloc::System.realloc(p, l, new_size);
+        if !q.is_null() {
+            let _ = LIVE_BYTES.try_with(|c| c.set(c.get() + new_size as isize - l.size() as isize));
+        }
+        q
+    }
+}
+
+#[global_allocator]
+static ALLOC: Counting = Counting;
+
+pub fn live_bytes() -> isize {
+    LIVE_BYTES.with(|c| c.get())
+}
+
 fn root() -> PathBuf {
     std::env::var("VERIF_ROOT").map(PathBuf::from).unwrap_or_else(|_| PathBuf::from("/verif"))
 }
